@@ -216,7 +216,24 @@ class Real(Shape):
     def array_elem(self, ctx, name):
         a = z3.Array(name, z3.IntSort(), z3.RealSort())
         from .values import zval
-        return lambda j: SNum(z3.Select(a, zval(j)))
+
+        def elem(j):
+            return SNum(z3.Select(a, zval(j)))
+        elem.base_array = a
+        if self.lo is not None or self.hi is not None or self.nonzero:
+            # element bounds hold for every index
+            q = z3.Int(f'{name}!j')
+            cs = []
+            if self.lo is not None:
+                lo = zval(lift_float(self.lo))
+                cs.append(z3.Select(a, q) > lo if self.lo_open else z3.Select(a, q) >= lo)
+            if self.hi is not None:
+                hi = zval(lift_float(self.hi))
+                cs.append(z3.Select(a, q) < hi if self.hi_open else z3.Select(a, q) <= hi)
+            if self.nonzero:
+                cs.append(z3.Select(a, q) != 0)
+            ctx.assume(z3.ForAll([q], z3.And(*cs), patterns=[z3.Select(a, q)]))
+        return elem
 
     def native_elem(self, name, ev, j):
         return _flt(ev.elem(name, j, self))
@@ -581,6 +598,8 @@ class ListOf(Shape):
             if isinstance(v, SObj):
                 v.fields['__owner'] = oid
             return v
+        if hasattr(base, 'base_array'):
+            elem.base_array = base.base_array
         l.elem = elem
         l.frozen = self.frozen
         l.shape = self
@@ -685,7 +704,7 @@ def shape_of_value(v):
     if isinstance(v, SBV):
         return Flags()
     if isinstance(v, SObj):
-        return Obj(v.cls, frozen=True, **{k: shape_of_value(x) for k, x in v.fields.items()})
+        return Obj(v.cls, frozen=True, **{k: shape_of_value(x) for k, x in v.fields.items() if not k.startswith('__')})
     import enum
     if isinstance(v, enum.Enum) or isinstance(v, str) or v is None:
         return Const(v)
@@ -732,6 +751,22 @@ class RandomEv:
         self.sorted_lists = sorted_lists
 
     def _real(self, shape):
+        v = self._real0(shape)
+        pool = self.memo.setdefault('__pool', [])
+        # boundary coincidences: now and then reuse a value generated earlier for another input
+        if pool and self.rng.random() < 0.25:
+            c = self.rng.choice(pool)
+            lo, hi = getattr(shape, 'lo', None), getattr(shape, 'hi', None)
+            if (lo is None or c > lo or (c == lo and not shape.lo_open)) and \
+                    (hi is None or c < hi or (c == hi and not shape.hi_open)) and \
+                    not (getattr(shape, 'nonzero', False) and c == 0):
+                v = c
+        pool.append(v)
+        if len(pool) > 64:
+            pool.pop(0)
+        return v
+
+    def _real0(self, shape):
         r = self.rng
         lo = shape.lo if getattr(shape, 'lo', None) is not None else None
         hi = shape.hi if getattr(shape, 'hi', None) is not None else None
@@ -790,10 +825,19 @@ class RandomEv:
         if k not in self.memo:
             if isinstance(shape, Real):
                 v = self._real(shape)
-                if self.sorted_lists and (name, j - 1) in self.memo:
-                    v = self.memo[(name, j - 1)] + self.rng.uniform(0.05, 1.0)
-                elif self.sorted_lists:
-                    v = self.rng.uniform(-2.0, 2.0)
+                srt = self.memo.setdefault(('__sorted', name), self.sorted_lists and self.rng.random() < 0.75)
+                if srt and (name, j - 1) in self.memo:
+                    prev = self.memo[(name, j - 1)]
+                    pool = [c for c in self.memo.get('__pool', []) if c > prev]
+                    if pool and self.rng.random() < 0.35:
+                        v = min(pool)
+                    else:
+                        v = prev + (self.rng.uniform(0.05, 1.0) if self.rng.random() < 0.9 else 0.0)
+                    self.memo.setdefault('__pool', []).append(v)
+                elif srt:
+                    v = self.rng.uniform(-2.0, 2.0) if getattr(shape, 'lo', None) is None else \
+                        float(shape.lo) + self.rng.uniform(0.0, 2.0) + (0.01 if shape.lo_open else 0.0)
+                    self.memo.setdefault('__pool', []).append(v)
                 self.memo[k] = v
             elif isinstance(shape, Int):
                 self.memo[k] = self.int(f'{name}[{j}]', shape)
